@@ -45,6 +45,13 @@ func newShadow(failAt ...int) *shadow {
 }
 
 func (s *shadow) begin(name string) (int, bool) {
+	// finish the allocator's current tiny-object block with garbage: a finalizer attached to a small
+	// object of the secret under construction must not be kept from running by an unrelated live
+	// object that happens to share its 16-byte block (the runtime finalizes such blocks as a whole)
+	for i := 0; i < 16; i++ {
+		tinySink = new(bool)
+	}
+	tinySink = nil
 	idx := len(s.calls)
 	s.calls = append(s.calls, name)
 	if s.failAt[idx] {
